@@ -125,7 +125,7 @@ def run(ctx):
             ctx.ob('R09.1', f'{hp.split("::")[-1]}|{callee_of(t).split("::")[-1]}|{via}', ok,
                    f'{hp.split("::")[-1]}: a peer-supplied task id reaches the panicking {callee_of(t).split("::")[-1]}; it must be dominated by the Some edge of a find_task* on the same id',
                    b.loc(bi))
-    ctx.floor('R09.1', nsinks, 2, 'panicking lookups keyed by peer-supplied ids')
+    ctx.floor('R09.1', nsinks, 1, 'panicking lookups keyed by peer-supplied ids')
 
     # ---- R09.2
     with open(os.path.join(os.path.dirname(__file__), '..', '..', 'tables', 'feasible_pairs.json')) as f:
@@ -202,7 +202,7 @@ def run(ctx):
             ctx.ob('R09.3', f'{owner_fn(prog, p).split("::")[-1]}|guard of {ty[:60]}|no await', not bad,
                    f'a {ty.split("<")[0].split("::")[-1]} guard created in {p} is not live across an await (another handler would find the cell borrowed)',
                    b.loc(bad[0]) if bad else b.loc(bi), dict(created=b.loc(bi)))
-    ctx.floor('R09.3', nguards, 20, 'RefCell guards created in server/worker coroutines')
+    ctx.floor('R09.3', nguards, 10, 'RefCell guards created in server/worker coroutines')
     ctx.note('coroutines_with_awaits', ncor)
     # (b) event callbacks never re-enter
     reenter = Effect('reenter', callees={'tako::control::ServerRef::cancel_tasks', 'tako::control::ServerRef::add_new_tasks',
@@ -219,7 +219,7 @@ def run(ctx):
             ncb += 1
             ctx.ob('R09.3', f'{ii.split("::")[-1]}|no re-entry', ii not in has,
                    f'{ii} (called with core and comm mutably borrowed) cannot reach ServerRef::* / Comm::*', prog.bodies[ii].loc())
-    ctx.floor('R09.3', ncb, 6, 'EventProcessor callbacks')
+    ctx.floor('R09.3', ncb, 4, 'EventProcessor callbacks')
 
     # ---- R09.4
     STATE = HQ + 'state::State'
